@@ -147,12 +147,13 @@ class App:
         self.closed = 0
         self.after_closed = []   # events delivered after the closed notification
         self.helper = None
+        self.close_calls = 0
         self.extra = []          # results of explicit get_* / derive_key steps
 
     # event recording
     def ev(self, kind, val=None):
         rec = (kind, val)
-        if self.closed and kind != "closed":
+        if self.closed and kind not in ("closed", "closed-again"):
             self.after_closed.append(rec)
         self.obs.append(rec)
         if kind == "closed":
@@ -229,6 +230,40 @@ class Client:
                       "srv_release": set(), "cause": None, "closed_checked": False}
 
 
+class RawActor:
+    """A third mailbox participant driven by a fixed script of raw commands
+    (its responses are read only to learn the mailbox id)."""
+
+    def __init__(self, world, ai, script):
+        self.ai = ai
+        self.script = list(script)
+        self.pc = 0
+        self.mailbox = None
+        sp = mbws.WebSocketServer()
+        sp.factory = _FakeFactory(world.server)
+        sp._peer_addr_port = ("ipv4", "127.0.0.9", 50000 + ai)
+        sp.sendMessage = self._rx
+        self.sp = sp
+        self.errors = 0
+        sp.onOpen()
+
+    def _rx(self, payload, isBinary=False):
+        m = json.loads(payload.decode("utf-8"))
+        if m["type"] == "claimed":
+            self.mailbox = m["mailbox"]
+        elif m["type"] == "error":
+            self.errors += 1
+
+    def step(self):
+        cmd = dict(self.script[self.pc])
+        self.pc += 1
+        for k, v in list(cmd.items()):
+            if v == "$mailbox":
+                cmd[k] = self.mailbox or "mbox1"
+        cmd.setdefault("id", "raw")
+        self.sp.onMessage(json.dumps(cmd).encode("utf-8"), False)
+
+
 DOCUMENTED_API_ERRORS = (werrors.WormholeError,)
 
 
@@ -237,7 +272,7 @@ class MailboxWorld:
     explored={kinds}, coarse={client indexes whose up/down run eagerly},
     welcome={...}, reorder=int, dup=int, acks=bool, initial_fail=bool"""
 
-    KINDS = ("down", "up", "api", "turn", "connect", "stopfin", "reorder", "dup", "srverr", "drop", "connfail")
+    KINDS = ("down", "up", "api", "raw", "turn", "connect", "stopfin", "reorder", "dup", "srverr", "drop", "connfail")
 
     def __init__(self, cfg, seed=0):
         self.cfg = cfg
@@ -279,10 +314,28 @@ class MailboxWorld:
             assert not self._pending_services
             if c.app.mode != "delegate" and c.app.auto_get:
                 c.app.arm(w)
+        CTX.client = "srv"
+        self.raw = [RawActor(self, ai, sc) for ai, sc in enumerate(cfg.get("raw", ()))]
+        self.cov = set()
+        if cfg.get("trace_machines"):
+            self._install_tracers()
         hook = cfg.get("post_init")
         if hook:
             hook(self)
         self._closure()
+
+    def _install_tracers(self):
+        for c in self.clients:
+            b = c.boss
+            names = {"B": b, "N": b._N, "M": b._M, "S": b._S, "O": b._O, "K": b._K, "SK": b._K._SK,
+                     "R": b._R, "L": b._L, "A": b._A, "I": b._I, "C": b._C, "T": b._T}
+            for nm, obj in names.items():
+                def tracer(old_state, input, new_state, nm=nm):
+                    self.cov.add((nm, old_state, input))
+                obj.set_trace(tracer)
+
+    def coverage(self):
+        return self.cov
 
     # ---- seams called from patched third-party stand-ins
     def _register_service(self, svc):
@@ -334,6 +387,9 @@ class MailboxWorld:
             for ti, t in enumerate(c.threads):
                 if c.pc[ti] < len(t) and self._step_enabled(c, t[c.pc[ti]]):
                     evs.append(("api", c.ci, ti))
+        for a in self.raw:
+            if a.pc < len(a.script):
+                evs.append(("raw", a.ai))
         for c in self.clients:
             if c.clock.calls and c.clock.calls[0].getTime() <= c.clock.seconds():
                 evs.append(("turn", c.ci))
@@ -427,6 +483,10 @@ class MailboxWorld:
     def _do(self, ev):
         CTX.world = self
         kind = ev[0]
+        if kind == "raw":
+            CTX.client = "srv"
+            self.raw[ev[1]].step()
+            return
         c = self.clients[ev[1]]
         CTX.client = "c%d" % c.ci
         if kind == "down":
@@ -551,13 +611,14 @@ class MailboxWorld:
         try:
             return f(*a)
         except Exception as e:
-            self.escaped.append((what, c.ci, type(e).__name__, str(e)[:160]))
+            self.escaped.append((what, c.ci, type(e).__name__, str(e)[:160], _site(e)))
 
     # ---- API steps
     def _api(self, c, step):
         w = c.w
         app = c.app
         op = step[0]
+        pre = canon.machine_state(c.boss, type(c.boss).m)
         try:
             if op == "set_code":
                 w.set_code(step[1])
@@ -587,8 +648,10 @@ class MailboxWorld:
                     w.close()
                 else:
                     d = w.close()
-                    d.addCallbacks(lambda v: app.ev("closed", verdict(v)),
-                                   lambda f: app.ev("closed", verdict(f)))
+                    name = "closed" if not app.close_calls else "closed-again"
+                    app.close_calls += 1
+                    d.addCallbacks(lambda v: app.ev(name, verdict(v)),
+                                   lambda f: app.ev(name, verdict(f)))
             elif op == "derive":
                 app.extra.append(("derive", step[1], step[2], w.derive_key(step[1], step[2])))
             elif op in ("get", "get_late"):
@@ -601,7 +664,7 @@ class MailboxWorld:
             app.api_errors.append((op, type(e).__name__))
         except Exception as e:
             app.api_errors.append((op, type(e).__name__))
-            self.escaped.append(("api:" + op, c.ci, type(e).__name__, str(e)[:160]))
+            self.escaped.append(("api:" + op, c.ci, type(e).__name__, str(e)[:160], _site(e), pre))
 
     def _get(self, c, what, late=False):
         app = c.app
@@ -663,7 +726,7 @@ class MailboxWorld:
                           tuple(json.dumps(m, sort_keys=True) for m in c.delivered_msgs()) if self.dup_left else (),
                           im.img(c.boss), im.img(c.app), im.img(c.ghost)))
         srv = self.server_dump()
-        return (tuple(parts), im.img(srv), self.reorder_left, self.dup_left, self.srverr_left,
+        return (tuple(parts), tuple((a.pc, a.mailbox, a.errors) for a in self.raw), im.img(srv), self.reorder_left, self.dup_left, self.srverr_left,
                 tuple(self.errors), tuple(self.escaped),
                 im.img(self.cfg.get("extra_state")(self)) if self.cfg.get("extra_state") else None)
 
@@ -689,6 +752,18 @@ class MailboxWorld:
     def outcome(self):
         return tuple((tuple(c.app.obs), tuple(c.app.api_errors)) for c in self.clients) + (
             tuple(self.errors), tuple(self.escaped))
+
+
+def _site(e):
+    import os
+    import traceback
+    tb = traceback.extract_tb(e.__traceback__)
+    # innermost frame inside the repository (skip automat / stdlib frames)
+    for fr in reversed(tb):
+        if "/wormhole/" in fr.filename and "site-packages" not in fr.filename:
+            return "%s:%s" % (os.path.basename(fr.filename), fr.name)
+    fr = tb[-1]
+    return "%s:%s" % (os.path.basename(fr.filename), fr.name)
 
 
 def _delivered_msgs(self):
